@@ -40,7 +40,7 @@ static std::vector<char> unhex(const std::string & h) {
 static std::string summary(UncompressedFile & u) {
     std::ostringstream o;
     o << "|" << static_cast<long long>(u.tellg()) << "," << static_cast<long long>(u.tellp()) << "," << u.fileSize() << ","
-      << (u.good() ? 1 : 0) << (u.eof() ? 1 : 0) << "," << u.gcount() << ",";
+      << (u.good() ? 1 : 0) << (u.eof() ? 1 : 0) << "," << u.gcount() << "," << static_cast<long long>(u.m_bufferSize) << ",";
     bool first = true;
     for (auto & c : u.m_data) {
         o << (first ? "" : ";") << static_cast<long long>(c->filePosition) << ":" << c->uncompressedFileSize;
